@@ -52,6 +52,34 @@ def _shards(cases, n):
     return [s for s in sh if s]
 
 
+CRASH_SIGNALS = {-11: "SIGSEGV", -7: "SIGBUS", -6: "SIGABRT", -8: "SIGFPE", -4: "SIGILL"}
+
+
+def _run_alone(pid, sub, scratch_root, tag, env, tier, results, budget, fault=False):
+    """run some cases in one more worker process; results are merged into `results`; returns (returncode, tail of the worker's log)"""
+    inp = scratch_root / f"{tag}.in.json"
+    out = scratch_root / f"{tag}.out.jsonl"
+    inp.write_text(json.dumps(sub))
+    env_k = dict(env, VERIF_SHARD_SCRATCH=str(scratch_root / f"s_{tag}"), VERIF_TIER=tier)
+    if fault:
+        env_k["PYTHONFAULTHANDLER"] = "1"
+    with open(scratch_root / f"{tag}.log", "w") as logf:
+        p = subprocess.Popen([sys.executable, "-B", "-m", "vlib.worker", pid, str(inp), str(out)], env=env_k, stdout=logf, stderr=subprocess.STDOUT, text=True)
+        try:
+            p.wait(timeout=budget)
+        except subprocess.TimeoutExpired:
+            p.kill()
+            p.wait()
+    if out.exists():
+        for line in out.read_text().splitlines():
+            try:
+                r = json.loads(line)
+            except Exception:
+                continue
+            results[r["_i"]] = r
+    return p.returncode, (scratch_root / f"{tag}.log").read_text(errors="replace")[-6000:]
+
+
 def main(argv):
     pid = argv[0].upper()
     mod = importlib.import_module(f"checks.{pid.lower()}")
@@ -110,8 +138,6 @@ def main(argv):
             so = (scratch_root / f"shard{k}.log").read_text(errors="replace")[-2000:]
         except Exception:
             so = ""
-        if p.returncode not in (0, None) and p.returncode != -9:
-            inconclusive.append(f"shard{k}:worker-died-rc={p.returncode}:{(so or '')[-400:].strip()}")
         if out.exists():
             for line in out.read_text().splitlines():
                 try:
@@ -119,6 +145,38 @@ def main(argv):
                 except Exception:
                     continue
                 results[r["_i"]] = r
+        if p.returncode in CRASH_SIGNALS:
+            # the interpreter itself died (segmentation fault / bus error / abort) in the middle of a case: find the case, run it again alone with
+            # the fault handler on, and go on with the rest of the shard.  A crash that happens again, with library frames on the dumped stack, is the
+            # library failing to return on an input of the property's domain -> a violation with a replay.  Anything else stays inconclusive.
+            pending = [i for i in idx if i not in results]
+            for _round in range(12):
+                if not pending:
+                    break
+                first, pending = pending[0], pending[1:]
+                rc1, log1 = _run_alone(pid, [cases[first]], scratch_root, f"crash{k}_{_round}", env, tier, results, 120.0 + case_to * float(cases[first].get("_w", 1)), fault=True)
+                if first not in results:
+                    lib = os.path.join(os.environ.get("VERIF_REPO", "/repo"), "src") + os.sep
+                    stack = [ln.strip() for ln in log1.splitlines() if ln.strip().startswith("File ")]
+                    lib_frames = [ln for ln in stack if f'"{lib}' in ln and os.sep + "tests" + os.sep not in ln]
+                    if rc1 in CRASH_SIGNALS and lib_frames:
+                        results[first] = {"_i": first, "violations": [{"key": f"process-crash:{CRASH_SIGNALS[rc1]}",
+                                          "msg": f"case {cases[first].get('cls')}: the interpreter died with {CRASH_SIGNALS[rc1]} twice (in the shard and alone) while the library "
+                                                 f"was running: {lib_frames[0][:200]}", "detail": {"stack": stack[:12]}}],
+                                          "observed": {"violations_raised": 1, "process_crashes": 1}, "nontrivial": False}
+                    else:
+                        inconclusive.append(f"shard{k}:worker-died-rc={p.returncode}:case-{first}-alone-rc={rc1}:{log1[-300:].strip()}")
+                if pending:
+                    rc2, log2 = _run_alone(pid, [cases[i] for i in pending], scratch_root, f"rest{k}_{_round}", env, tier, results,
+                                           120.0 + case_to * sum(float(cases[i].get("_w", 1)) for i in pending))
+                    pending = [i for i in pending if i not in results]
+                    if pending and rc2 not in CRASH_SIGNALS:
+                        inconclusive.append(f"shard{k}:rest-of-shard-rc={rc2}:{log2[-300:].strip()}")
+                        break
+            if pending:
+                inconclusive.append(f"shard{k}:worker-died-rc={p.returncode}:{len(pending)}-cases-left")
+        elif p.returncode not in (0, None) and p.returncode != -9:
+            inconclusive.append(f"shard{k}:worker-died-rc={p.returncode}:{(so or '')[-400:].strip()}")
         missing = [i for i in idx if i not in results]
         if missing and not any(s.startswith(f"shard{k}:") for s in inconclusive):
             inconclusive.append(f"shard{k}:{len(missing)}-cases-without-result")
